@@ -1,0 +1,36 @@
+//go:build verif
+
+package verifhook
+
+import (
+	"context"
+	"sync/atomic"
+)
+
+// Enabled reports whether the simulation hooks are compiled in.
+const Enabled = true
+
+// HandlerFunc receives every Point call. It may block the caller (the
+// simulator parks tasks here), record the event, or return an error that the
+// call site propagates where it is able to.
+type HandlerFunc func(ctx context.Context, site string, args ...any) error
+
+var handler atomic.Pointer[HandlerFunc]
+
+// SetHandler installs (or, with nil, removes) the process-wide handler.
+func SetHandler(h HandlerFunc) {
+	if h == nil {
+		handler.Store(nil)
+		return
+	}
+	handler.Store(&h)
+}
+
+// Point marks a named instrumentation site and forwards to the handler.
+func Point(ctx context.Context, site string, args ...any) error {
+	h := handler.Load()
+	if h == nil {
+		return nil
+	}
+	return (*h)(ctx, site, args...)
+}
